@@ -7,7 +7,8 @@ Helpers for `MapOnCurve`: the model's `H2C.mapToCurve` (simplified SWU onto the 
 * `iso_identity` — the isogeny identity `yNum²·g'·xDen³ = yDen²·(xNum³ + 4·xDen³)` as an equality of
   coefficient lists (64 coefficients; kernel arithmetic);
 * `isoMap_onCurve` — a point of `E1'` is mapped into `E1` (or to `O` when a denominator vanishes);
-* `sswu_onIso` — `H2C.sswu u` is a reduced point of `E1'`, for every `u`.
+* `sswu_onIso` — `H2C.sswu u` is a reduced point of `E1'`, for every `u`;
+* `mapToCurve_onCurve` — `H2C.mapToCurve u` is on `E1`, for every `u`.
 -/
 import ZkProofs.Lemmas.G1Group
 import ZkModel.L0.HashToCurve
@@ -218,5 +219,132 @@ theorem x1exc_sq (iv : Nat → Nat) (iv_cast : ∀ a, ((iv a : Nat) : ZMod P) = 
   refine ⟨(excR : ZMod P), ?_⟩
   rw [isoRhs_cast, fmul_cast, iv_cast, fmul_cast, e, ← eq_inv_of_mul_eq_one_right hw]
   linear_combination h
+
+/-- The SSWU identity `g'(t·x1) = t³·g'(x1)` for `x1 = −B/A·(1 + 1/(t² + t))`. -/
+theorem sswu_key {A B t x1 : ZMod P} (hA : A ≠ 0) (ht : t ^ 2 + t ≠ 0)
+    (hx1 : x1 = -B * A⁻¹ * (1 + (t ^ 2 + t)⁻¹)) :
+    (t * x1) ^ 3 + A * (t * x1) + B = t ^ 3 * (x1 ^ 3 + A * x1 + B) := by
+  have ht0 : t ≠ 0 := by rintro rfl; exact ht (by ring)
+  have ht1 : t + 1 ≠ 0 := by intro h; exact ht (by linear_combination t * h)
+  have e : t ^ 2 + t = t * (t + 1) := by ring
+  rw [e] at hx1
+  subst hx1
+  field_simp
+  ring
+
+/-- In the branch where `g'(x1)` is not a square, `g'(x2)` is, `x2 = Z·u²·x1`. -/
+theorem x2_isSquare (iv : Nat → Nat) (iv_cast : ∀ a, ((iv a : Nat) : ZMod P) = (a : ZMod P)⁻¹)
+    (iv_lt : ∀ a, iv a < P) (v zu2 tv1 x1 : Nat)
+    (hz : zu2 = Fp.mul H2C.sswuZ (Fp.sq v))
+    (htv : tv1 = iv (Fp.add (Fp.sq zu2) zu2))
+    (hx1 : x1 = if tv1 == 0 then Fp.mul H2C.isoB (iv (Fp.mul H2C.sswuZ H2C.isoA))
+      else Fp.mul (Fp.mul (Fp.neg H2C.isoB) (iv H2C.isoA)) (Fp.add 1 tv1))
+    (hns : ¬ IsSquare ((H2C.isoRhs x1 : Nat) : ZMod P)) :
+    IsSquare ((H2C.isoRhs (Fp.mul zu2 x1) : Nat) : ZMod P) := by
+  have e : ((H2C.sswuZ : Nat) : ZMod P) = 11 := by unfold H2C.sswuZ; norm_num
+  by_cases h0 : tv1 = 0
+  · rw [if_pos (by simp [h0])] at hx1
+    exact absurd (hx1 ▸ x1exc_sq iv iv_cast) hns
+  · rw [if_neg (by simpa using h0)] at hx1
+    have ht : (zu2 : ZMod P) = 11 * (v : ZMod P) ^ 2 := by rw [hz, fmul_cast, sq_cast, e]
+    have htv' : (tv1 : ZMod P) = ((zu2 : ZMod P) ^ 2 + zu2)⁻¹ := by
+      rw [htv, iv_cast, fadd_cast, sq_cast]
+    have hne : (zu2 : ZMod P) ^ 2 + zu2 ≠ 0 := by
+      intro h
+      have : (tv1 : ZMod P) ≠ 0 := ConcreteG1.cast_ne_zero (htv ▸ iv_lt _) h0
+      rw [htv', h, inv_zero] at this
+      exact this rfl
+    have hx1' : (x1 : ZMod P) = -(H2C.isoB : ZMod P) * (H2C.isoA : ZMod P)⁻¹
+        * (1 + ((zu2 : ZMod P) ^ 2 + zu2)⁻¹) := by
+      rw [hx1, fmul_cast, fmul_cast, neg_cast, iv_cast, fadd_cast, htv']; norm_num
+    have key := sswu_key isoA_ne_zero hne hx1'
+    rw [isoRhs_cast] at hns
+    rw [isoRhs_cast, fmul_cast, key]
+    obtain ⟨s, hs⟩ := isSquare_mul_of_not z_not_sq hns
+    exact ⟨11 * (v : ZMod P) ^ 3 * s, by rw [ht]; linear_combination (11 * (v : ZMod P) ^ 3) ^ 2 * hs⟩
+
+theorem good_sign {x y : Nat} (s : Bool) (hy : y < P) (h : OnIso x y) :
+    (if s then Fp.neg y else y) < P ∧ OnIso x (if s then Fp.neg y else y) := by
+  cases s
+  · exact ⟨hy, h⟩
+  · refine ⟨neg_lt _, ?_⟩
+    unfold OnIso at h ⊢
+    simp only [if_true, neg_cast]
+    rw [neg_sq]; exact h
+
+
+/-! ### the two branches of SSWU, on the values the model computes
+
+`sswu_some` / `sswu_none` are the whole mathematical content of "`H2C.sswu u` is a reduced point of `E1'`":
+with `v = u % P`, `zu2 = Z·v²`, `tv1 = inv0(zu2² + zu2)`, `x1` as in the model, the pair returned is
+`(x1, ±y1)` when `Fp.sqrt? (g' x1) = some y1` and `(zu2·x1, ±(g'(zu2·x1))^((p+1)/4))` otherwise. -/
+
+theorem sswu_some {x1 y1 : Nat} (s : Bool) (hx : x1 < P) (h : Fp.sqrt? (H2C.isoRhs x1) = some y1) :
+    x1 < P ∧ (if s then Fp.neg y1 else y1) < P ∧ OnIso x1 (if s then Fp.neg y1 else y1) := by
+  have hs := fp_sqrt_some h
+  exact ⟨hx, good_sign _ hs.1 (by unfold OnIso; rw [hs.2, isoRhs_cast])⟩
+
+theorem sswu_none (v : Nat) (s : Bool) :
+    let zu2 := Fp.mul H2C.sswuZ (Fp.sq v)
+    let tv1 := Fp.inv (Fp.add (Fp.sq zu2) zu2)
+    let x1 := if tv1 == 0 then Fp.mul H2C.isoB (Fp.inv (Fp.mul H2C.sswuZ H2C.isoA))
+      else Fp.mul (Fp.mul (Fp.neg H2C.isoB) (Fp.inv H2C.isoA)) (Fp.add 1 tv1)
+    let x2 := Fp.mul zu2 x1
+    let y2 := Fp.pow (H2C.isoRhs x2) ((P + 1) / 4)
+    Fp.sqrt? (H2C.isoRhs x1) = none →
+      x2 < P ∧ (if s then Fp.neg y2 else y2) < P ∧ OnIso x2 (if s then Fp.neg y2 else y2) := by
+  intro zu2 tv1 x1 x2 y2 h
+  have hsq := x2_isSquare Fp.inv finv_cast finv_lt v zu2 tv1 x1 rfl rfl rfl (not_sq_of_none h)
+  have hp := pow_sqrt hsq
+  exact ⟨fmul_lt _ _, good_sign _ hp.1 (by unfold OnIso; rw [hp.2, isoRhs_cast])⟩
+
+/-- The isogeny applied to any pair, as a function of the pair. -/
+theorem isoMap_onCurve' (p : Nat × Nat) (h : OnIso p.1 p.2) : G1.onCurve (H2C.isoMap p) = true := by
+  obtain ⟨x, y⟩ := p
+  exact isoMap_onCurve h
+
+/-! ### `H2C.sswu` itself (the model's `sswuX1 / sswuSelect / sswuSign` decomposition) -/
+
+theorem sswuX1_lt (tv1 : Nat) : H2C.sswuX1 tv1 < P := by
+  unfold H2C.sswuX1; split <;> exact fmul_lt _ _
+
+/-- `sswuSign` keeps a reduced point of `E1'` one. -/
+theorem sswuSign_ok (u x y : Nat) (hx : x < P) (hy : y < P) (h : OnIso x y) :
+    ∃ x' y', H2C.sswuSign u (x, y) = (x', y') ∧ x' < P ∧ y' < P ∧ OnIso x' y' := by
+  have hs := good_sign (Fp.sgn0 u != Fp.sgn0 y) hy h
+  exact ⟨_, _, rfl, hx, hs.1, hs.2⟩
+
+/-- `sswuSelect` on the result `r` of the square-root computation is a reduced point of `E1'`. -/
+theorem sswuSelect_ok (v zu2 tv1 x1 : Nat) (r : Option Nat)
+    (hz : zu2 = Fp.mul H2C.sswuZ (Fp.sq v)) (htv : tv1 = Fp.inv (Fp.add (Fp.sq zu2) zu2))
+    (hx1 : x1 = H2C.sswuX1 tv1) (hr : Fp.sqrt? (H2C.isoRhs x1) = r) :
+    ∃ x y, H2C.sswuSelect zu2 x1 r = (x, y) ∧ x < P ∧ y < P ∧ OnIso x y := by
+  cases r with
+  | some y1 =>
+    have hs := fp_sqrt_some hr
+    exact ⟨x1, y1, rfl, hx1 ▸ sswuX1_lt tv1, hs.1, by unfold OnIso; rw [hs.2, isoRhs_cast]⟩
+  | none =>
+    have hsq := x2_isSquare Fp.inv finv_cast finv_lt v zu2 tv1 x1 hz htv (by rw [hx1]; rfl)
+      (not_sq_of_none hr)
+    have hp := pow_sqrt hsq
+    exact ⟨_, _, rfl, fmul_lt _ _, hp.1, by unfold OnIso; rw [hp.2, isoRhs_cast]⟩
+
+theorem sswu_core_ok (v zu2 tv1 x1 : Nat) (r : Option Nat)
+    (hz : zu2 = Fp.mul H2C.sswuZ (Fp.sq v)) (htv : tv1 = Fp.inv (Fp.add (Fp.sq zu2) zu2))
+    (hx1 : x1 = H2C.sswuX1 tv1) (hr : Fp.sqrt? (H2C.isoRhs x1) = r) :
+    ∃ x y, H2C.sswuSign v (H2C.sswuSelect zu2 x1 r) = (x, y) ∧ x < P ∧ y < P ∧ OnIso x y := by
+  obtain ⟨x, y, e, hx, hy, h⟩ := sswuSelect_ok v zu2 tv1 x1 r hz htv hx1 hr
+  rw [e]
+  exact sswuSign_ok v x y hx hy h
+
+/-- **`H2C.sswu u` is a reduced point of `E1'`, for every `u`.** -/
+theorem sswu_onIso (u : Nat) : ∃ x y, H2C.sswu u = (x, y) ∧ x < P ∧ y < P ∧ OnIso x y :=
+  sswu_core_ok (u % P) _ _ _ _ rfl rfl rfl rfl
+
+theorem mapToCurve_onCurve (u : Nat) : G1.onCurve (H2C.mapToCurve u) = true := by
+  obtain ⟨x, y, e, -, -, hc⟩ := sswu_onIso u
+  have e' : H2C.mapToCurve u = H2C.isoMap (H2C.sswu u) := rfl
+  rw [e', e]
+  exact isoMap_onCurve hc
 
 end Zk.MapToCurve
